@@ -8,7 +8,10 @@ All theorems are about `Ampverif.Gen.C08.*`, which is REGENERATED on every run f
 * `<name>Code0`  — the numpy code `sympy.lambdify(.., cse=False)` generates from the library's
                    `_numpycode` printers, parsed and interpreted per event;
 * `<name>Code1`  — the same with `cse=True`;
-* `<name>_rad`   — the radicand of the square root occurring in a family of entries.
+* `<name>_rad`   — the radicand of the square root occurring in a family of entries;
+* `<name>_s<i>`, `<name>_v<k>_<i>` — (families with wrapped momenta only) repeated subterms and the
+                   components of intermediate matrix-times-vector results, NAMED by the translator so that
+                   nested arguments do not blow up the file; unfolding them gives back the code's terms.
 
 Only property theorems live here; helper lemmas are in `Lemmas/C08Boost.lean`, the einsum model in
 `Model/C08Einsum.lean` (+ `Lemmas/C08Einsum.lean`).
@@ -863,6 +866,10 @@ example : (0 : ℝ) < 5 ∧ (0 : ℝ) < 1 ^ 2 + 2 ^ 2 + (-3) ^ 2 ∧ (1 : ℝ) ^
   norm_num
 
 example : (boostEx 5 1 2 (-3)).det = 1 := boost_det 5 1 2 (-3) (by norm_num) (by norm_num) (by norm_num)
+
+/-- the inverse-boost statement for an already inverted momentum, at a concrete non-trivial momentum -/
+example : boostNeg2Code0 5 1 2 (-3) * boostNegCode0 5 1 2 (-3) = 1 :=
+  (boostNeg2Code_inverse 5 1 2 (-3) (by norm_num) (by norm_num) (by norm_num)).1
 
 example : ((3 : ℝ) / 5) ^ 2 < 1 := by norm_num
 
